@@ -3,7 +3,7 @@
 package main
 
 import (
-	"sync"
+	"bytes"
 	"crypto/tls"
 	"encoding/binary"
 	"encoding/json"
@@ -12,6 +12,7 @@ import (
 	"math/rand"
 	"net"
 	"os"
+	"sync"
 	"time"
 
 	"github.com/IrineSistiana/mosproxy/internal/zzverif/vtrace"
@@ -274,9 +275,76 @@ func modeC13(cutsFile string, thorough bool) {
 	for range lsts {
 		<-done4
 	}
+	// an earlier query still in flight, and the client pauses inside the next frame for longer than the idle
+	// time-out; the paused frame carries (as EDNS padding) octets that would read as a frame of their own.
+	// Whatever the proxy does about the pause (it may close the connection), it never answers a query nobody sent
+	for _, lst := range lsts {
+		runStallStream(in4, lst)
+	}
 	in4.close()
 	_ = io.EOF
 	_ = dns.TypeA
+}
+
+func runStallStream(in *inst, lst string) {
+	instMu.Lock()
+	connCtr++
+	conn := connCtr
+	instMu.Unlock()
+	frame := func(w []byte) []byte {
+		f := make([]byte, 2+len(w))
+		binary.BigEndian.PutUint16(f, uint16(len(w)))
+		copy(f[2:], w)
+		return f
+	}
+	qa := mkq(fmt.Sprintf("%s.r0t60d2500.fr.test.", uniq()))
+	qa.id = uint16(6000 + conn*3)
+	smug := mkq(fmt.Sprintf("smuggled-%s.r0t60d0.fr.test.", uniq()))
+	smug.id = uint16(6000 + conn*3 + 2)
+	inner := frame(smug.wire())
+	mb := new(dns.Msg)
+	bname := fmt.Sprintf("%s.r0t60d0.fr.test.", uniq())
+	mb.SetQuestion(bname, dns.TypeA)
+	mb.Id = uint16(6000 + conn*3 + 1)
+	o := &dns.OPT{Hdr: dns.RR_Header{Name: ".", Rrtype: dns.TypeOPT}}
+	o.SetUDPSize(1232)
+	o.Option = append(o.Option, &dns.EDNS0_PADDING{Padding: inner})
+	mb.Extra = append(mb.Extra, o)
+	wb, _ := mb.Pack()
+	fb := frame(wb)
+	cut := bytes.Index(fb, inner)
+	if cut < 0 {
+		return
+	}
+	c, err := streamConn(in, lst)
+	if err != nil {
+		in.tr.Emit("c13.err", "conn", conn, "err", err.Error())
+		return
+	}
+	defer c.Close()
+	in.tr.Emit("c13.conn", "conn", conn, "lst", lst, "ids", []int{int(qa.id), int(mb.Id)}, "names", [][][]int{labelsJS(qa.name), labelsJS(bname)},
+		"limit", 100, "mode", "stall", "ncuts", 1)
+	done := make(chan []byte, 1)
+	go func() {
+		var got []byte
+		buf := make([]byte, 65536)
+		for {
+			c.SetReadDeadline(time.Now().Add(4500 * time.Millisecond))
+			n, err := c.Read(buf)
+			got = append(got, buf[:n]...)
+			if err != nil {
+				break
+			}
+		}
+		done <- got
+	}()
+	c.Write(frame(qa.wire()))
+	time.Sleep(30 * time.Millisecond)
+	c.Write(fb[:cut])
+	time.Sleep(1300 * time.Millisecond)
+	c.Write(fb[cut:])
+	got := <-done
+	in.tr.Emit("c13.ret", "conn", conn, "bytes", vtrace.Bytes(got))
 }
 
 // runSlowStream sends k queries as k+1 segments, one every `gap`, each segment ending in the middle of a frame.
